@@ -20,8 +20,9 @@ the outcome:
   * a REAL sum whose first addend `y` has `0.0 + y ≠ y` (only `-0.0`: the sign of a zero sum is not fixed);
   * PERCENTILE with p outside [0, 1]; unreadable lines (C12); joins that cannot be set up (C05).
 Where the sentence is silent but an answer is needed the code is mirrored, and said so at the definition:
-AVG of INTs truncates, the first of several equal extremes is shown by MIN/MAX, STRING_AGG starts at the first
-non-empty text, the element type of ARRAY_AGG is the type of its first element.
+AVG of INTs truncates, the first of several equal extremes is shown by MIN/MAX, the element type of ARRAY_AGG is the
+type of its first element. STRING_AGG is the plain join of ALL non-NULL texts, empty ones included (the code used to
+swallow the delimiter after a leading empty text: finding D67, repaired).
 -/
 namespace Sqlgrep.Spec.Agg
 open Sqlgrep
@@ -183,7 +184,20 @@ def avgOf (xs : List Value) : Option Value :=
     | _, _, some ns => if partialSumsOk inIv 0 ns then some (.interval (Int.tdiv (intSum ns) ns.length)) else none
     | _, _, _ => none
 
-/-- STDDEV / VARIANCE (population) from Σx, Σx² and n, in REAL arithmetic as the code does it -/
+/-- **POPULATION variance** (divisor `n`, not `n − 1`) by the one-pass formula "mean of the squares minus the square of the
+mean": `(Σx² − (Σx)²/n) / n`, evaluated in REAL arithmetic in exactly this order, from the REAL forms `s` of Σx and `q` of
+Σx². The property sentence and the README (`stddev(x)`, `variance(x)`) say neither "population" nor "sample" and fix no
+evaluation order: population and this order are THE CODE'S CHOICE, recorded here as the specification's own definition
+(the model's `stddevCalc` is proved equal to it: `Lemmas/AggSums.lean` `stddevCalc_eq_spread`; the harness reference
+computes the population variance over exact rationals). Cancellation can make it slightly negative, STDDEV is then NaN. -/
+def populationVariance (n : Int) (s q : Nat) : Nat :=
+  F64.div (F64.sub q (F64.div (F64.mul s s) (F64.ofInt n))) (F64.ofInt n)
+
+/-- VARIANCE, or STDDEV = its square root -/
+def spread (n : Int) (isVariance : Bool) (s q : Nat) : Nat :=
+  if isVariance then populationVariance n s q else F64.sqrt (populationVariance n s q)
+
+/-- STDDEV / VARIANCE (population) from Σx, Σx² and n -/
 def stddevOf (isVariance : Bool) (xs : List Value) : Option Value :=
   match xs with
   | [] => some .null
@@ -192,11 +206,11 @@ def stddevOf (isVariance : Bool) (xs : List Value) : Option Value :=
     | some is, _ =>
       let sq := is.map (fun x => x * x)
       if sq.all inI64 && partialSumsOk inI64 0 is && partialSumsOk inI64 0 sq then
-        some (.real (stddevCalc is.length isVariance (F64.ofInt (intSum is)) (F64.ofInt (intSum sq))))
+        some (.real (spread is.length isVariance (F64.ofInt (intSum is)) (F64.ofInt (intSum sq))))
       else none
     | _, some rs =>
       let sq := rs.map (fun x => F64.mul x x)
-      if zeroNeutral rs && zeroNeutral sq then some (.real (stddevCalc rs.length isVariance (realSum rs) (realSum sq)))
+      if zeroNeutral rs && zeroNeutral sq then some (.real (spread rs.length isVariance (realSum rs) (realSum sq)))
       else none
     | _, _ => none
 
@@ -208,7 +222,7 @@ def percentileOf (p : Nat) (xs : List Value) : Option Value :=
     let n := sorted.length
     some ((sorted[min (f64ToNat (F64.mul p (F64.ofInt n))) (n - 1)]?).getD .null)
 
-/-- STRING_AGG: the texts joined by the delimiter, starting at the first non-empty text (as in the code) -/
+/-- STRING_AGG: the texts joined by the delimiter (every text, empty or not, is an element) -/
 def joinTexts (delim : Bytes) : List Bytes → Bytes
   | [] => []
   | [s] => s
@@ -236,7 +250,7 @@ def aggregate (k : AggKind) (vs : List Value) : Option Value :=
       | some t => some (.array t vs)
       | none => some (.array .int vs)
   | .stringAgg _ delim =>
-    (texts (nonNull vs)).map (fun ss => if ss.isEmpty then .null else .text (joinTexts delim (ss.dropWhile (·.isEmpty))))
+    (texts (nonNull vs)).map (fun ss => if ss.isEmpty then .null else .text (joinTexts delim ss))
 
 /-! ### the result table -/
 
@@ -379,5 +393,53 @@ def batch (O : Oracles) (qy : Query) (q : AggStmt) (joined : List FileLine) (fil
       if joined.any (fun fl => !fl.readable) || (indexOf? qy.table.columns j.joinerColumn).isNone ||
           (indexOf? j.joined.columns j.joinedColumn).isNone then none
       else batchOver O q (joinEnvs qy j joined lines) lines.length
+
+/-! ### the answer an open finding PREDICTS
+
+A deviation of the implementation from `batch` is attributed to an open finding only when the implementation's answer is
+EXACTLY the deviating answer the finding describes — computed here from the specification's own notions, not from the
+engine model. Anything else on the same input is an unknown failure. -/
+
+/-- the rows the lines present to the statement (as `batch` takes them) -/
+def rowsOfLines (qy : Query) (joined lines : List FileLine) : List Env :=
+  match qy.join with
+  | none => envsOf qy.table lines
+  | some j => joinEnvs qy j joined lines
+
+/-- some group's ARRAY_AGG starts with NULL -/
+def hasArrayAggFirstNull (O : Oracles) (q : AggStmt) (envs : List Env) : Bool :=
+  match keyedRows O q envs with
+  | none => false
+  | some rows => (groups rows).any (fun (_, g) => arrayAggFirstNull O q g)
+
+/-- D15: the number of lines consumed when the run is refused — the shortest prefix of the input after which some
+group's ARRAY_AGG starts with NULL (the refusal happens while that line is fed) -/
+def d15Lines (O : Oracles) (qy : Query) (q : AggStmt) (joined lines : List FileLine) : Nat :=
+  ((List.range (lines.length + 1)).find? (fun n => hasArrayAggFirstNull O q (rowsOfLines qy joined (lines.take n)))).getD
+    lines.length
+
+/-- **the predicted deviating answer** of a batch run that falls into an open finding (`none`: no finding applies, or the
+specification does not answer):
+* D15 (takes precedence: the refusal aborts the run): the run ends with the error `CannotCreateArrayOfNullType` after
+  `d15Lines` lines, having printed nothing;
+* D10: the specification's table computed over the groups in which some aggregate of the statement creates an entry —
+  exactly the invisible groups are missing; HAVING, DISTINCT and LIMIT apply to what is left; same columns, same order,
+  every line counted, no error. -/
+def predicted (O : Oracles) (qy : Query) (q : AggStmt) (joined : List FileLine) (files : List (List FileLine)) :
+    Option RunOut :=
+  match batch O qy q joined files with
+  | none => none
+  | some _ =>
+    let lines := files.flatten
+    match keyedRows O q (rowsOfLines qy joined lines) with
+    | none => none
+    | some rows =>
+      let gs := groups rows
+      if gs.any (fun (_, g) => arrayAggFirstNull O q g) then
+        some { error := some .cannotCreateArrayOfNullType, totalLines := d15Lines O qy q joined lines }
+      else if gs.any (fun (_, g) => !groupVisible O q g) then
+        (tableOfGroups O q (gs.filter (fun (_, g) => groupVisible O q g))).map (fun rows =>
+          { printed := printResult { columns := q.items.map (·.name), rows := rows } true, totalLines := lines.length })
+      else none
 
 end Sqlgrep.Spec.Agg
